@@ -13,16 +13,20 @@
                           left alone instead of being opened as a link file
      fx_hidden_stays D25  a ./ block for a file that is not in the listing is
                           dropped when the file was hidden by its .cap file or
-                          when the block itself is a hide block *)
+                          when the block itself is a hide block
+     fx_skip_unreadable D26 prep_entries also skips a child whose handler fails
+                          with OSError while it builds the entry (HTML title of
+                          an unreadable file, *.gophermap gone since the stat) *)
 From Coq Require Import ZArith String.
 From PG Require Import Lib.Str Lib.Cmp Lib.Sort Model.DirEntry.
 Local Open Scope N_scope.
 
 Record fixes := mkFixes {
   fx_skip_child : bool; fx_sorted_enum : bool; fx_dash_hides : bool;
-  fx_num_unset : bool; fx_remove_safe : bool; fx_dot_safe : bool; fx_hidden_stays : bool }.
-Definition pinned : fixes := mkFixes false false false false false false false.
-Definition repaired : fixes := mkFixes true true true true true true true.
+  fx_num_unset : bool; fx_remove_safe : bool; fx_dot_safe : bool; fx_hidden_stays : bool;
+  fx_skip_unreadable : bool }.
+Definition pinned : fixes := mkFixes false false false false false false false false.
+Definition repaired : fixes := mkFixes true true true true true true true true.
 
 (* ---------- helpers with Python semantics ---------- *)
 
